@@ -1433,6 +1433,43 @@ fn grid() {
                     }
                 }
             }
+            // splice whose replacement iterator is not fused (a None in the middle, items afterwards), in
+            // front of a kept tail: like std, the replacement is not polled again after its first None
+            // inside the fill; and extend by iterators with a loose upper bound
+            {
+                struct Gappy(u32, u32);
+                impl Iterator for Gappy {
+                    type Item = u32;
+                    fn next(&mut self) -> Option<u32> { self.0 += 1; if self.0 == self.1 || self.0 > 6 { None } else { Some(100 + self.0) } }
+                }
+                for n in [3usize, 6] {
+                    for a in 0..n {
+                        for b in a..n {
+                            for gap in 1..5u32 {
+                                let mut bv: BVec<u32> = BVec::from_iter_in(0..n as u32, &bump);
+                                let mut sv: Vec<u32> = (0..n as u32).collect();
+                                let rb: Vec<u32> = bv.splice(a..b, Gappy(0, gap)).collect();
+                                let rs: Vec<u32> = sv.splice(a..b, Gappy(0, gap)).collect();
+                                cases += 1;
+                                if rb != rs || bv[..] != sv[..] {
+                                    bad += 1;
+                                    if bad <= 3 { println!("Q drain_adaptors splice_unfused n={} range={}..{} gap={} | {:?} | {:?}", n, a, b, gap, &bv[..], sv); }
+                                }
+                            }
+                        }
+                    }
+                }
+                let mut bv: BVec<u32> = BVec::new_in(&bump);
+                let mut sv: Vec<u32> = Vec::new();
+                let mut k = 0;
+                bv.extend((0..usize::MAX).map(|i| i as u32).take_while(|_| { k += 1; k <= 4 }));
+                let mut k = 0;
+                sv.extend((0..usize::MAX).map(|i| i as u32).take_while(|_| { k += 1; k <= 4 }));
+                bv.extend((0..1000u32).filter(|x| x % 333 == 0));
+                sv.extend((0..1000u32).filter(|x| x % 333 == 0));
+                cases += 1;
+                if bv[..] != sv[..] { bad += 1; println!("Q drain_adaptors extend_loose_hints | {:?} | {:?}", &bv[..], sv); }
+            }
             // C16: an element whose destructor panics is among the items an adaptor skips (nth, skip,
             // step_by over IntoIter and Drain): after the unwinding, and after the iterator and the vector
             // are dropped, nothing has been dropped twice, and the drops are std's
